@@ -411,6 +411,11 @@ class Evaluator:
         if e[0] == 'dc':
             return ('as', v, e[1])
         if h == 'as' and e[0] == 'f':
+            inner = v[1]
+            if v[2] == 'Some' and e[1] == '0' and isinstance(inner, tuple) and inner and inner[0] == 'call' and isinstance(inner[1], str) \
+                    and inner[1].startswith('core::num::') and inner[1].endswith(('::checked_sub', '::checked_add')) and len(inner[2]) == 2:
+                # the payload of a successful checked operation is the plain result
+                return mk_bin('Sub' if inner[1].endswith('checked_sub') else 'Add', inner[2][0], inner[2][1])
             return ('payload', v[1], v[2], e[1])
         return ('proj', v, e)
 
@@ -584,6 +589,10 @@ class Evaluator:
             elif d in ('num_traits::zero', 'num_traits::one', 'num_traits::identities::zero', 'num_traits::identities::one') and not args:
                 ty = self.F.ty_s(c['args'][0]['ty']) if c['args'] and 'ty' in c['args'][0] else '?'
                 res = ('k', nm, ty)
+            elif d in ('num_traits::Zero::is_zero', 'num_traits::identities::Zero::is_zero') and len(args) == 1:
+                # contract of num_traits::Zero: `x.is_zero()` <=> `x == zero()`
+                ty = self.F.ty_s(c['args'][0]['ty']) if c['args'] and 'ty' in c['args'][0] else '?'
+                res = mk_bin('Eq', self.deref_val(st, args[0]), ('k', 'zero', ty))
             elif d == 'core::ops::Try::branch':
                 res = mk_try(args[0])
             elif d == 'core::ops::FromResidual::from_residual':
